@@ -332,7 +332,13 @@ func acceptable(s sit) api.TrackerStatus {
 		}
 	}
 	switch s.O {
-	case oPinFail, oUnpinFail, oTrackRemoteFail, oPinRefused, oUnpinRefused:
+	case oUnpinFail:
+		// "an error status whenever ... its last pin or unpin failed": the
+		// item was to be removed, the daemon refused and still holds whatever
+		// it held: nothing but an error status is truthful (in particular not
+		// "unpinned", although the item is not in the pinset any more)
+		m = errClass
+	case oPinFail, oTrackRemoteFail, oPinRefused, oUnpinRefused:
 		m |= errClass // "... or its last pin or unpin failed"
 	case oPinParked, oPinQueued:
 		m |= api.TrackerStatusPinning | api.TrackerStatusPinQueued // "queued or in-progress only while an operation is pending"
